@@ -110,7 +110,7 @@ func c06CheckSafe(err error, what string) {
 // HarnessC06ConnectUnary: any status, a wire-error body with symbolic fields
 // (or undecodable bytes), unknown encodings.
 //
-//verif:harness property=C06 stubs=json,wire ints=bv
+//verif:harness property=C06 stubs=json,wire ints=bv cross=z3-new
 func HarnessC06ConnectUnary() {
 	status := nondetInt("status")
 	assume(status >= 0 && status <= 999)
@@ -148,7 +148,7 @@ func HarnessC06ConnectUnary() {
 // HarnessC06ConnectStream: a Connect streaming response whose end-of-stream
 // message has symbolic error fields and a metadata key in arbitrary case.
 //
-//verif:harness property=C06 stubs=json,wire
+//verif:harness property=C06 stubs=json,wire cross=z3-new
 func HarnessC06ConnectStream() {
 	status := nondetInt("status")
 	assume(status >= 0 && status <= 999)
@@ -263,7 +263,7 @@ func c06GRPCHeader(web bool) http.Header {
 // HarnessC06GRPCStatus: the status block (grpc-status text, grpc-message,
 // status details with a symbolic code) in trailers or headers.
 //
-//verif:harness property=C06 stubs=json,wire shard=variant:4
+//verif:harness property=C06 stubs=json,wire shard=variant:4 cross=z3-new
 func HarnessC06GRPCStatus() {
 	variant := nondetChoice("variant", 4)
 	web := variant >= 2
@@ -322,7 +322,7 @@ func HarnessC06GRPCStatus() {
 // HarnessC06GRPCMessage: an arbitrary Grpc-Message (truncated or malformed
 // percent escapes included) next to a failure status never crashes the client.
 //
-//verif:harness property=C06 stubs=json,wire
+//verif:harness property=C06 stubs=json,wire cross=z3-new
 func HarnessC06GRPCMessage() {
 	web := nondetBool("web")
 	m := nondetString("grpcMessage", bound("grpcMessage", 5, 6))
